@@ -133,6 +133,9 @@ static long ffi_var(void *fn, int has_first, void *first) {
 static char cap[1 << 16]; static size_t caplen; static int have_cap;
 /* comparator for qsort_s/bsearch_s: unsigned bytewise over the element size in *ctx, checks its pointers */
 static struct { uint8_t *base; size_t nmemb, size; int bad; long calls; void *key; } cmpctx;
+/* C16: the sequence of comparator calls of qsort_s as pairs of element indices (compared with the Coq model's trace) */
+#define MAXTR 200000
+static int32_t trbuf[2 * MAXTR]; static long trn; static int have_tr;
 static int cmp_checked(const void *a, const void *b, void *ctx) {
     cmpctx.calls++;
     if (ctx != &cmpctx) cmpctx.bad |= 1;
@@ -140,6 +143,8 @@ static int cmp_checked(const void *a, const void *b, void *ctx) {
     int a_ok = (pa == cmpctx.key) || (pa >= cmpctx.base && pa < cmpctx.base + cmpctx.nmemb * cmpctx.size && (size_t)(pa - cmpctx.base) % cmpctx.size == 0);
     int b_ok = (pb == cmpctx.key) || (pb >= cmpctx.base && pb < cmpctx.base + cmpctx.nmemb * cmpctx.size && (size_t)(pb - cmpctx.base) % cmpctx.size == 0);
     if (!a_ok || !b_ok) { cmpctx.bad |= 2; return 0; }
+    if (have_tr && trn < MAXTR) { trbuf[2 * trn] = (int32_t)((pa - cmpctx.base) / cmpctx.size); trbuf[2 * trn + 1] = (int32_t)((pb - cmpctx.base) / cmpctx.size); }
+    if (have_tr) trn++;
     return memcmp(pa, pb, cmpctx.size < 4 ? cmpctx.size : 4);   /* the key is the first (up to) 4 bytes */
 }
 
@@ -196,7 +201,7 @@ int main(int argc, char **argv) {
             else if (tok[0] == 'V') { vstart = i + 1; }
         }
         if (vstart > nargs) vstart = nargs; }
-        hn = 0; fault_sig = 0; errno = 0; have_cap = 0; caplen = 0; snap_statics();
+        hn = 0; fault_sig = 0; errno = 0; have_cap = 0; caplen = 0; have_tr = 0; trn = 0; snap_statics();
         al_count = 0; al_failed = 0; al_frees = 0; al_nlive = 0;
         OUT("%s ret=", id);
         if (!sigsetjmp(jb, 1)) {
@@ -226,6 +231,7 @@ int main(int argc, char **argv) {
             for (size_t k = 0; k < blk[i].size; k++) OUT("%02x", blk[i].start[k]);
         }
         if (have_cap) { OUT(" out="); if (!caplen) OUT("-"); for (size_t k = 0; k < caplen; k++) OUT("%02x", (unsigned char)cap[k]); }
+        if (have_tr) { OUT(" ncmp=%ld tr=", trn); if (!trn) OUT("-"); for (long k = 0; k < trn && k < MAXTR; k++) OUT("%s%d:%d", k ? "," : "", trbuf[2 * k], trbuf[2 * k + 1]); }
         OUT("\n"); fflush(res);
     }
     return 0;
